@@ -46,6 +46,7 @@ def plan(tier, seed):
     cases += [{'family': 'two_variants', 'cseed': rnd.randrange(1 << 30), 'mode': 'two_variants'} for _ in range(30 if tier == 'quick' else 600)]
     cases += [{'family': 'yaml_shared_update', 'cseed': rnd.randrange(1 << 30), 'mode': 'yaml_shared_update'} for _ in range(20 if tier == 'quick' else 300)]
     cases += [{'family': 'rewrite', 'cseed': rnd.randrange(1 << 30), 'mode': 'rewrite'} for _ in range(16 if tier == 'quick' else 250)]
+    cases += [{'family': 'circuit_derivation', 'cseed': rnd.randrange(1 << 30), 'mode': 'circuit_derivation'} for _ in range(16 if tier == 'quick' else 250)]
     return cases
 
 
@@ -89,6 +90,8 @@ def run_case(case, ctx):
             return case_yaml_shared_update(case, ctx, rnd, mech, res)
         if mode == 'rewrite':
             return case_rewrite(case, ctx, rnd, mech, res)
+        if mode == 'circuit_derivation':
+            return case_circuit_derivation(case, ctx, rnd, mech, res)
         return case_models(case, ctx, rnd, mech, res)
     except observe.Mismatch as e:
         s = str(e)
@@ -205,6 +208,89 @@ def case_yaml_shared_update(case, ctx, rnd, mech, res):
         raise
     mech['yaml_shared_update_models'] = 1
     res.update(status='ok', symptom='', mech=mech, sample={'mode': 'yaml_shared_update', 'update': spec['updates']})
+    return res
+
+
+def case_circuit_derivation(case, ctx, rnd, mech, res):
+    """(C') circuits derived from a CIRCUIT: `base: <circuit>` with additional edges in YAML, or update_template(edges=...) in Python.
+    Two derived circuits (each adds its own edge) and the base are loaded / used in a random order: each must have its own dynamics
+    (base: the emitted model; derived: the model plus its own extra edge)."""
+    from pyrates import CircuitTemplate
+    import copy as _copy
+    if case.get('spec') is not None:
+        spec, extra = case['spec']['base'], case['spec']['extra']
+    else:
+        for _ in range(400):
+            spec, feats, risk = gen.gen_net(rnd, pool=gen.SAFE_POOL, n_nodes=rnd.choice([2, 3]), max_types=2, depth=0, forbid=ctx['excluded'],
+                                            edge_density=rnd.choice([0.0, 0.3]), unique_types=True)
+            ref0 = RefModel(spec)
+            outs = [k for k in ref0.state_keys if ref0.kind.get(k) == 'state' and spec['ops'][k[1]]['vars'][k[2]][0] == 'out']
+            ins = [k for k in ref0.param_keys if ref0.kind[k] == 'in']
+            have = {(e[0], e[1]) for e in spec['circ']['edges']}
+            cand = [(f"{a[0]}/{a[1]}/{a[2]}", f"{b[0]}/{b[1]}/{b[2]}") for a in outs for b in ins]
+            cand = [c_ for c_ in cand if c_ not in have]
+            rnd.shuffle(cand)
+            extra = []
+            vals = gen.Vals(rnd)
+            for c_ in cand:
+                if len(extra) == 2:
+                    break
+                if any(c_[1] == x[1] for x in extra):
+                    continue
+                trial = _copy.deepcopy(spec)
+                trial['circ']['edges'].append([c_[0], c_[1], None, {'weight': round(vals.new() * 2, 4)}])
+                try:
+                    f_, r_ = gen.features(trial)
+                    RefModel(trial)
+                except Exception:
+                    continue
+                if set(r_) & ctx['excluded']:
+                    continue
+                extra.append(trial['circ']['edges'][-1])
+            if len(extra) == 2:
+                break
+        else:
+            raise RuntimeError('generator could not satisfy the constraints')
+    res['sig'] = stable_hash([spec, extra, 'circuit_derivation'])
+    res['features'] += ['circuit_derived_from_circuit']
+    res['spec'] = {'base': spec, 'extra': extra}
+    top = spec['circ']['name']
+    variants = {top: spec}
+    for i, e in enumerate(extra):
+        v = _copy.deepcopy(spec)
+        v['circ']['edges'].append(e)
+        variants[f'Derived{i}'] = v
+    order = list(variants)
+    rnd.shuffle(order)
+    via = rnd.choice(['yaml', 'yaml', 'python'])
+    mech['circuit_derivations_' + via] = 1
+    cwd = os.getcwd()
+    try:
+        if via == 'yaml':
+            text, _ = build.build_yaml_text(spec)
+            for i, e in enumerate(extra):
+                text += f"\nDerived{i}:\n  base: {top}\n  edges:\n    - [{e[0]}, {e[1]}, null, {{weight: {e[3]['weight']!r}}}]\n"
+            with open('model_cd.yaml', 'w') as f:
+                f.write(text)
+            loaded = {name: CircuitTemplate.from_yaml(f'{cwd}/model_cd/{name}') for name in order}
+        else:
+            base_t, _ = build.build_python(spec)
+            loaded = {}
+            for name in order:
+                if name == top:
+                    loaded[name] = base_t
+                else:
+                    e = extra[int(name[-1])]
+                    loaded[name] = base_t.update_template(edges=[(e[0], e[1], None, dict(e[3]))])
+    except Exception as e:
+        import traceback
+        raise observe.Mismatch(f"loud: deriving circuits from a circuit ({via}) raised {type(e).__name__}: {e} :: {traceback.format_exc()[-300:]}")
+    for name in order:
+        check_dynamics(loaded[name], variants[name], ctx, rnd, mech,
+                       f"circuit `{name}` of a family [base + two circuits derived from it with one extra edge each] ({via}, used in the order {order})")
+    mech['derived_circuits_checked'] = mech.get('derived_circuits_checked', 0) + len(order)
+    res.pop('spec', None)
+    res.update(status='ok', symptom='', mech=mech, sample={'mode': 'circuit_derivation', 'via': via, 'order': order})
     return res
 
 
